@@ -227,7 +227,7 @@ Proof.
     assert (R : is_ret (t_pc (thr s o)) = false) by (destruct (t_pc (thr s o)); simpl in *; try discriminate; auto).
     destruct (r_pend _ _ M o OpRebuild Ho K R) as [p [F [O _]]].
     rewrite (find_pend_rebuild _ _ _ F O) in Hp. discriminate.
-  - pose proof (r_internal _ _ M o Ho C) as W. rewrite (r_watch _ _ M) in W.
+  - pose proof (r_internal _ _ M o Ho C) as W.
     rewrite (r_watchc _ _ M W) in Hw. discriminate.
 Qed.
 
@@ -327,17 +327,15 @@ Proof.
   all: try (intros b Hb; left; exact Hb).
 Qed.
 
-(* Watch succeeds *)
+(* Watch's critical section succeeds: the flag is set, the goroutines exist;
+   the call has not returned yet (silent step) *)
 Lemma minv_watch : forall s m t,
   SInv s -> MInv s m -> t < nt s -> t_pc (thr s t) = PWaStart -> t_kind (thr s t) = KClient OpWatch ->
   watcher s = false -> disposed s = false ->
   MInv (set_pc (mkState false (active s) (recent s) true (nt s) (stopFlag s) (wexited s)
                         (edits s) (nb s) (blds s) (S (S (nt s)))
                         (upd (upd (thr s) (nt s) (mkThread KWatcher 0 PWlCheck)) (S (nt s)) (mkThread KWatchFirst 0 PWfStart))
-                        (ncalls s)) t (PRet RvUnit))
-       (mkMon (m_ncalls m) (m_next m) (m_run m) (m_loaded m) (m_load m) (m_end m) (m_ret m)
-              (remove_pend (t_cid (thr s t)) (m_pend m))
-              (m_dispCalled m) (m_dispRet m) (m_watchCalled m) true (m_cancelCalled m) (m_edits m)).
+                        (ncalls s)) t (PWaRet RvUnit)) m.
 Proof.
   intros s m t I M Ht Hpc Kt Hw Hdis.
   assert (Hown : forall b, active s = Some b -> b_owner (blds s b) < nt s /\ b_owner (blds s b) <> t).
@@ -375,7 +373,7 @@ Proof.
   - apply (r_ret _ _ M).
   - discriminate.
   - intros H. destruct (r_dispret _ _ M H). congruence.
-  - reflexivity.
+  - auto.
   - intros _. apply (r_watchk _ _ M t Ht Kt).
   - auto.
   - apply (r_cancel _ _ M).
@@ -394,13 +392,13 @@ Proof.
     apply (r_cid _ _ M t0 o0); auto. lia.
   - intros t1 t2 H1 H2 K1 K2 C.
     assert (A : forall t0, t0 < S (S (nt s)) ->
-                is_client (t_kind (if t0 =? t then {| t_kind := t_kind (thr s t); t_cid := t_cid (thr s t); t_pc := PRet RvUnit |}
+                is_client (t_kind (if t0 =? t then {| t_kind := t_kind (thr s t); t_cid := t_cid (thr s t); t_pc := PWaRet RvUnit |}
                                    else if t0 =? S (nt s) then {| t_kind := KWatchFirst; t_cid := 0; t_pc := PWfStart |}
                                    else if t0 =? nt s then {| t_kind := KWatcher; t_cid := 0; t_pc := PWlCheck |} else thr s t0)) = true ->
-                t0 < nt s /\ (if t0 =? t then {| t_kind := t_kind (thr s t); t_cid := t_cid (thr s t); t_pc := PRet RvUnit |}
+                t0 < nt s /\ (if t0 =? t then {| t_kind := t_kind (thr s t); t_cid := t_cid (thr s t); t_pc := PWaRet RvUnit |}
                                    else if t0 =? S (nt s) then {| t_kind := KWatchFirst; t_cid := 0; t_pc := PWfStart |}
                                    else if t0 =? nt s then {| t_kind := KWatcher; t_cid := 0; t_pc := PWlCheck |} else thr s t0) =
-                              mkThread (t_kind (thr s t0)) (t_cid (thr s t0)) (if t0 =? t then PRet RvUnit else t_pc (thr s t0))).
+                              mkThread (t_kind (thr s t0)) (t_cid (thr s t0)) (if t0 =? t then PWaRet RvUnit else t_pc (thr s t0))).
     { intros t0 L. destruct (Nat.eqb_spec t0 t); simpl.
       - subst. auto.
       - destruct (Nat.eqb_spec t0 (S (nt s))); simpl; [discriminate|].
@@ -409,14 +407,19 @@ Proof.
     destruct (A t1 H1 K1) as [L1 E1]. destruct (A t2 H2 K2) as [L2 E2].
     rewrite E1 in K1, C. rewrite E2 in K2, C. simpl in *.
     apply (r_ciduniq _ _ M t1 t2 L1 L2 K1 K2 C).
-  - intros t0 o0 H0 K R. destruct (Nat.eqb_spec t0 t); simpl in *; [discriminate|].
-    destruct (Nat.eqb_spec t0 (S (nt s))); simpl in *; [discriminate|].
-    destruct (Nat.eqb_spec t0 (nt s)); simpl in *; [discriminate|].
-    assert (L : t0 < nt s) by lia.
-    destruct (r_pend _ _ M t0 o0 L K R) as [p [F [O Q]]]. exists p. split; [|split; [auto|]].
-    + rewrite find_remove_other; auto.
-      intros C. apply n. apply (r_ciduniq _ _ M t0 t L Ht); auto. rewrite K; reflexivity. rewrite Kt; reflexivity.
-    + eapply pinv_frame_same; eauto; simpl; try lia.
+  - intros t0 o0 H0 K R. destruct (Nat.eqb_spec t0 t) as [E|N]; simpl in *.
+    + subst t0. rewrite Kt in K. inversion K; subst o0.
+      destruct (r_pend _ _ M t OpWatch Ht Kt) as [p [F [O Q]]]; [rewrite Hpc; reflexivity|].
+      exists p. split; [auto|split; [auto|]].
+      destruct Q as [Q1 Q2 Q3 Q4 Q5 Q6 Q7 Q8 Q9 Q10].
+      constructor; simpl; upd_simpl; rewrite ?Nat.eqb_refl; simpl; auto; try (intros; discriminate).
+      all: try solve [intros H; destruct (Q4 H) as [D _]; congruence].
+      all: try solve [intros Ho; rewrite O in Ho; discriminate].
+    + destruct (Nat.eqb_spec t0 (S (nt s))); simpl in *; [discriminate|].
+      destruct (Nat.eqb_spec t0 (nt s)); simpl in *; [discriminate|].
+      assert (L : t0 < nt s) by lia.
+      destruct (r_pend _ _ M t0 o0 L K R) as [p [F [O Q]]]. exists p. split; [auto|split; [auto|]].
+      eapply pinv_frame_same; eauto; simpl; try lia.
       all: try (destruct (Nat.eqb_spec t0 t); [congruence|]; destruct (Nat.eqb_spec t0 (S (nt s))); [lia|];
                 destruct (Nat.eqb_spec t0 (nt s)); [lia|reflexivity]).
       all: try (intros Hx; congruence).
